@@ -693,6 +693,10 @@ def _c09_case(seed):
     files["core/API/w.py"] = f"import {ROOT}.core.api.v1.g\n"       # 'core.API' and 'core.api' are different modules at every level limit
     files["core/services/db/__init__.py"] = ""
     files["core/services/db/conn.py"] += f"import {ROOT}.core.api.v1\n"
+    # shallow modules whose NAMES are longer than the dotted name of every deep module (depth is a number of components, not of characters: seed C09o)
+    files["core/application_configuration_defaults_for_every_environment_and_region.py"] = f"import {ROOT}.core.api.v1.g\n"
+    files["core/api/versioned_application_programming_interface_compatibility_shims.py"] = f"import {ROOT}.core.util.text.fmt\n"
+    files["an_unusually_long_top_level_module_name_that_beats_every_dotted_path_below.py"] = f"import {ROOT}.core.services.db.conn\n"
     add_imports(files, rng, rng.randint(4, 12))
     out = []
     with temp_project(files, ROOT) as root:
